@@ -6,6 +6,9 @@
  *        P, Q = polynomials (polyio text) both of degree >= 1 in xV.
  *     prints   R r_fresh r_used r_aliasA r_aliasB  PSC n p_0 .. p_{n-1}  PSCU n ...  SUB n s_0 .. s_{n-1}  SUBU n ...
  *        (n = min(deg P, deg Q) + 1; the ...U lists were computed into pre-used output polynomials)
+ *     every operation gets at least one operand that no API call has touched since it was built (see do_sr; this is
+ *     what makes the VERIF_STALE=1 re-run of `check` meaningful: "first operation on an external polynomial after a
+ *     change of the variable order")
  *   srp M V P Q   the same in a polynomial context over Z_M, M prime (coefficients printed in the symmetric range)
  *   disc V P      the computation of polyxx discriminant(): div(resultant(P, dP/dxV), lc(P)), "1" for degree 1
  */
@@ -27,6 +30,16 @@ static void print_list(const char* tag, lp_polynomial_t** l, size_t n) {
 
 static const lp_polynomial_context_t* g_ctx;   /* context of the current case: pio_ctx (over Z) or one over Z_p */
 static lp_polynomial_t* cnew(const char* s) { lp_polynomial_t* p = lp_polynomial_new(g_ctx); pio_parse_ctx(g_ctx, p, s); return p; }
+/* OPERAND of the current context.  With VERIF_STALE=1 it is what pio_new makes in the global context: built under the
+ * REVERSED variable order, marked external, handed out after the order has been restored (every context of this driver
+ * shares pio_order), i.e. an external polynomial still laid out for a previous order that no API call has touched. */
+static lp_polynomial_t* cnew_op(const char* s) {
+  if (pio_stale < 0) { const char* e = getenv("VERIF_STALE"); pio_stale = (e && e[0] == '1') ? 1 : 0; }
+  if (pio_stale) lp_variable_order_reverse(pio_order);
+  lp_polynomial_t* p = cnew(s);
+  if (pio_stale) { lp_polynomial_set_external(p); lp_variable_order_reverse(pio_order); }
+  return p;
+}
 
 static lp_polynomial_t** new_list(size_t n, const char* init) {
   lp_polynomial_t** l = malloc(n * sizeof(lp_polynomial_t*));
@@ -38,11 +51,15 @@ static void del_list(lp_polynomial_t** l, size_t n) {
   free(l);
 }
 
-/* resultant / psc / subres of P, Q (texts) in the context g_ctx with x_v on top */
+/* resultant / psc / subres of P, Q (texts) in the context g_ctx with x_v on top.
+ * P, Q are "touched" operands (the domain test below has brought them into the current order).  Every operation is ALSO
+ * called on operands that no API call has touched since they were built: with VERIF_STALE=1 those are external
+ * polynomials still laid out for another order and the operation itself has to re-order them - BOTH of them, whichever
+ * of the two is untouched, also when the output aliases one of them.  The printed results do not depend on any of this. */
 static void do_sr(int v, const char* ptxt, const char* qtxt) {
   set_top(v);
-  lp_polynomial_t* P = cnew(ptxt);
-  lp_polynomial_t* Q = cnew(qtxt);
+  lp_polynomial_t* P = cnew_op(ptxt);
+  lp_polynomial_t* Q = cnew_op(qtxt);
   if (lp_polynomial_is_constant(P) || lp_polynomial_is_constant(Q) ||
       lp_polynomial_top_variable(P) != pio_x[v] || lp_polynomial_top_variable(Q) != pio_x[v]) {
     printf("UNKNOWN not in the domain");
@@ -52,19 +69,36 @@ static void do_sr(int v, const char* ptxt, const char* qtxt) {
   size_t n = (dp < dq ? dp : dq) + 1;
   /* resultant: fresh, pre-used, aliased with either operand */
   printf("R ");
-  { lp_polynomial_t* r = lp_polynomial_new(g_ctx); lp_polynomial_resultant(r, P, Q); pio_print(r); lp_polynomial_delete(r); }
+  /* both operands untouched, fresh output */
+  { lp_polynomial_t* Pf = cnew_op(ptxt); lp_polynomial_t* Qf = cnew_op(qtxt);
+    lp_polynomial_t* r = lp_polynomial_new(g_ctx); lp_polynomial_resultant(r, Pf, Qf); pio_print(r); lp_polynomial_delete(r);
+    lp_polynomial_delete(Pf); lp_polynomial_delete(Qf); }
   putchar(' ');
-  { lp_polynomial_t* r = cnew("7*x0^2*x1^1+-3*x2^3+11"); lp_polynomial_resultant(r, P, Q); pio_print(r); lp_polynomial_delete(r); }
+  /* only the SECOND operand untouched, pre-used output (itself an untouched operand-like polynomial) */
+  { lp_polynomial_t* Qf = cnew_op(qtxt);
+    lp_polynomial_t* r = cnew_op("7*x0^2*x1^1+-3*x2^3+11"); lp_polynomial_resultant(r, P, Qf); pio_print(r); lp_polynomial_delete(r);
+    lp_polynomial_delete(Qf); }
   putchar(' ');
-  { lp_polynomial_t* r = lp_polynomial_new_copy(P); lp_polynomial_resultant(r, r, Q); pio_print(r); lp_polynomial_delete(r); }
+  /* output aliased with the first operand, which is untouched; second operand touched */
+  { lp_polynomial_t* r = cnew_op(ptxt); lp_polynomial_resultant(r, r, Q); pio_print(r); lp_polynomial_delete(r); }
   putchar(' ');
-  { lp_polynomial_t* r = lp_polynomial_new_copy(Q); lp_polynomial_resultant(r, P, r); pio_print(r); lp_polynomial_delete(r); }
-  /* psc */
-  { lp_polynomial_t** l = new_list(n, NULL); lp_polynomial_psc(l, P, Q); print_list("PSC", l, n); del_list(l, n); }
-  { lp_polynomial_t** l = new_list(n, "5*x0^3*x2^1+-2*x1^2+9"); lp_polynomial_psc(l, P, Q); print_list("PSCU", l, n); del_list(l, n); }
-  /* subresultants */
-  { lp_polynomial_t** l = new_list(n, NULL); lp_polynomial_subres(l, P, Q); print_list("SUB", l, n); del_list(l, n); }
-  { lp_polynomial_t** l = new_list(n, "4*x0^1*x1^1*x2^1+-6*x0^5+1"); lp_polynomial_subres(l, P, Q); print_list("SUBU", l, n); del_list(l, n); }
+  /* output aliased with the second operand; both untouched */
+  { lp_polynomial_t* Pf = cnew_op(ptxt); lp_polynomial_t* r = cnew_op(qtxt);
+    lp_polynomial_resultant(r, Pf, r); pio_print(r); lp_polynomial_delete(r); lp_polynomial_delete(Pf); }
+  /* psc: both untouched / only the first untouched */
+  { lp_polynomial_t* Pf = cnew_op(ptxt); lp_polynomial_t* Qf = cnew_op(qtxt);
+    lp_polynomial_t** l = new_list(n, NULL); lp_polynomial_psc(l, Pf, Qf); print_list("PSC", l, n); del_list(l, n);
+    lp_polynomial_delete(Pf); lp_polynomial_delete(Qf); }
+  { lp_polynomial_t* Pf = cnew_op(ptxt);
+    lp_polynomial_t** l = new_list(n, "5*x0^3*x2^1+-2*x1^2+9"); lp_polynomial_psc(l, Pf, Q); print_list("PSCU", l, n); del_list(l, n);
+    lp_polynomial_delete(Pf); }
+  /* subresultants: both untouched / only the second untouched */
+  { lp_polynomial_t* Pf = cnew_op(ptxt); lp_polynomial_t* Qf = cnew_op(qtxt);
+    lp_polynomial_t** l = new_list(n, NULL); lp_polynomial_subres(l, Pf, Qf); print_list("SUB", l, n); del_list(l, n);
+    lp_polynomial_delete(Pf); lp_polynomial_delete(Qf); }
+  { lp_polynomial_t* Qf = cnew_op(qtxt);
+    lp_polynomial_t** l = new_list(n, "4*x0^1*x1^1*x2^1+-6*x0^5+1"); lp_polynomial_subres(l, P, Qf); print_list("SUBU", l, n); del_list(l, n);
+    lp_polynomial_delete(Qf); }
   lp_polynomial_delete(P); lp_polynomial_delete(Q);
 }
 
